@@ -879,11 +879,11 @@ type UDPSock struct {
 	addr     *net.UDPAddr
 	q        []dgram
 	out      []outDgram
-	nOut     uint64
+	nOutTo   map[string]uint64 // per-destination datagram index
 	closed   bool
 	rdl, wdl time.Time
 	sig      chan struct{}
-	burst    int
+	burst    map[string]int
 }
 
 func (u *UDPSock) signal() {
@@ -918,7 +918,8 @@ func (nd *Node) ListenPacket(network, address string) (net.PacketConn, error) {
 	if _, ok := n.udp[key]; ok {
 		return nil, &net.OpError{Op: "listen", Net: "udp", Addr: addr, Err: syscall.EADDRINUSE}
 	}
-	u := &UDPSock{net: n, ID: nd.Name + ":u" + strconv.Itoa(port), node: nd, addr: addr, sig: make(chan struct{})}
+	u := &UDPSock{net: n, ID: nd.Name + ":u" + strconv.Itoa(port), node: nd, addr: addr, sig: make(chan struct{}),
+		nOutTo: map[string]uint64{}, burst: map[string]int{}}
 	nd.nUDP++
 	n.udp[key] = u
 	n.udps = append(n.udps, u)
@@ -1047,16 +1048,21 @@ func (n *Net) collectUDP(u *UDPSock) {
 	out := u.out
 	u.out = nil
 	for _, d := range out {
-		idx := u.nOut
-		u.nOut++
-		h := core.HS(n.Cfg.Seed, "udpfate", u.ID, idx)
-		if u.burst > 0 {
-			u.burst--
+		// Fate is keyed by (socket, destination, per-destination index): the
+		// order in which independent goroutines (one per reader) share a server
+		// socket then does not change anybody's fate.
+		dst := d.to.String()
+		idx := u.nOutTo[dst]
+		u.nOutTo[dst] = idx + 1
+		ent := u.ID + ">" + dst
+		h := core.HS(n.Cfg.Seed, "udpfate", ent, idx)
+		if u.burst[dst] > 0 {
+			u.burst[dst]--
 			n.stat("udp.burst_drop")
 			continue
 		}
 		if n.Cfg.UDPBurst > 0 && core.Unit(core.Mix(h^1)) < n.Cfg.UDPBurst {
-			u.burst = n.Cfg.BurstLen - 1
+			u.burst[dst] = n.Cfg.BurstLen - 1
 			n.stat("udp.burst_drop")
 			continue
 		}
@@ -1068,7 +1074,7 @@ func (n *Net) collectUDP(u *UDPSock) {
 			n.stat("udp.partition_drop")
 			continue
 		}
-		lat := n.latency("udplat", u.ID, idx)
+		lat := n.latency("udplat", ent, idx)
 		if n.Cfg.UDPReorder > 0 && core.Unit(core.Mix(h^2)) < n.Cfg.UDPReorder {
 			lat += time.Duration(1+core.Mix(h^3)%uint64(max(n.Cfg.UDPJitUS, 1))) * time.Microsecond
 			n.stat("udp.reorder")
